@@ -51,6 +51,7 @@ type fpLine struct {
 	ID       string   `json:"id"`
 	FP       string   `json:"fp"`
 	Verdicts []string `json:"verdicts,omitempty"`
+	Replay   string   `json:"replay,omitempty"`
 }
 
 func sampleOf(c *Case, o *Obs) Sample {
@@ -162,6 +163,16 @@ func runMode(args []string) {
 		}
 		if *fplog {
 			l := fpLine{T: "fp", ID: o.ID, FP: o.FP}
+			if os.Getenv("VERIF_REPLAYCHECK") != "" && o.Invalid == "" {
+				// replay self-test: the run under test, re-executed from its recorded decision
+				// list, must produce the identical event log
+				rc := genCase(*prop, *tier, *seed, i)
+				rc.resolveLike(c)
+				rc.Sim.UseDecs = true
+				rc.Sim.Decisions = o.TestDecisions
+				ro := exec(rc)
+				l.Replay = ro.FP
+			}
 			for _, v := range o.Verdicts {
 				l.Verdicts = append(l.Verdicts, v.Sig)
 			}
